@@ -778,7 +778,12 @@ func (r *resolver) findGrouping(y *Uses) (*Grouping, error) {
 				// issue #50 - submodules can reference types in parent and in any
 				// other submodule w/o prefix
 				if m, isModule := p.(*Module); isModule && m.belongsTo != nil {
-					p = m.Parent().(Definition)
+					// a "belongs-to" in a file that was not loaded as a submodule has no module above it
+					parentDef, hasParent := m.Parent().(Definition)
+					if !hasParent {
+						break
+					}
+					p = parentDef
 				}
 			}
 		}
